@@ -185,6 +185,16 @@ static void obj_event(const char *event, const void *object)
   printf("obj free ?\n");
 }
 
+/* close() on a descriptor that is not open (closed twice, or never opened): alone it only fails with EBADF, with other
+   threads around it closes whatever file another thread has just opened under that number.  (-Wl,--wrap=close) */
+int __real_close(int fd);
+int __wrap_close(int fd)
+{
+  int r = __real_close(fd);
+  if (r == -1 && errno == EBADF) { int e = errno; printf("badclose\n"); errno = e; }
+  return r;
+}
+
 /* ---------- helpers ---------- */
 static void mkparents(const char *path)
 {
@@ -652,8 +662,11 @@ static int threads_main(void)
   struct job jobs[64]; char ids[64][256]; pthread_t th[64];
   while (n < 64 && (body = read_scenario(id, sizeof id)) != NULL) { jobs[n].body = body; jobs[n].out = NULL; snprintf(ids[n], 256, "%s", id); n++; }
   /* no chroot here (ThreadSanitizer needs /proc to name globals): the scenarios carry real, private path prefixes */
-  for (int i = 0; i < n; i++) pthread_create(&th[i], NULL, thread_main, &jobs[i]);
-  for (int i = 0; i < n; i++) pthread_join(th[i], NULL);
+  /* a scenario named "prologue..." runs to its end before the threads start: the documented process-wide options are set there */
+  int first = 0;
+  if (n > 0 && strncmp(ids[0], "prologue", 8) == 0) { thread_main(&jobs[0]); first = 1; }
+  for (int i = first; i < n; i++) pthread_create(&th[i], NULL, thread_main, &jobs[i]);
+  for (int i = first; i < n; i++) pthread_join(th[i], NULL);
   for (int i = 0; i < n; i++) { fprintf(stdout, "#BEGIN %s\n", ids[i]); fwrite(jobs[i].out, 1, jobs[i].outlen, stdout); fprintf(stdout, "#END %s ok\n", ids[i]); }
   fflush(stdout);
   return 0;
